@@ -38,11 +38,12 @@ def _exit_kind(F, n, inner, ps_of):
                 # an enclosing loop of inner (or a loop nested inside n, which does not leave inner)
                 outer = _loops_of(ps_of[id(inner)])
                 if any(l is tgt for l in outer):
-                    return "out"
+                    # `break` of an enclosing loop ends that loop altogether; `continue` goes on with its next round
+                    return "stop-outer" if k == "Break" else "out"
     return None
 
 
-@rule("R19.1", props=["C19", "C07"], floor=5, title="echelon_form: pivot rows are tested non-empty; after an addition an unsolvable row is an error and an identity row leaves the inner loop before it is indexed again")
+@rule("R19.1", props=["C19", "C07", "C08"], scope_all=True, floor=5, title="echelon_form: pivot rows are tested non-empty; after an addition an unsolvable row is an error and an identity row leaves the inner loop before it is indexed again")
 def r19_1(ctx, rr):
     F = ctx.F()
     b = F.one(r"^utils::mod2_sys::Modulo2System::<W>::echelon_form$")
@@ -79,7 +80,9 @@ def r19_1(ctx, rr):
         i_ = test_of("is_identity")
         kind = _exit_kind(F, i_["th"], inner, ps_of) if i_ is not None else None
         rr.instances += 1
-        rr.check(kind in ("out", "ret"), "echelon_form:identity-leaves-inner-loop", "echelon_form: after `%s` the pivot row may have lost all its variables; the `is_identity()` branch must leave the loop over the remaining rows (continue the outer loop / break), found %s: the next iteration reads `vars[0]` of an empty row (index out of bounds)" % (show(F, a)[:60], {"again": "a `continue` of the inner loop", None: "no exit"}.get(kind, kind) if i_ is not None else "no is_identity() test after the addition"), F.loc(i_ if i_ is not None else a))
+        if kind == "stop-outer":
+            rr.violate("echelon_form:identity-ends-the-reduction", "echelon_form: the `is_identity()` branch after `%s` breaks out of the loop over the pivot rows: the rows after the first redundant (0 = 0) equation are never reduced, and back substitution then returns an assignment that violates some equations" % show(F, a)[:60], F.loc(i_))
+        rr.check(kind in ("out", "ret", "stop-outer"), "echelon_form:identity-leaves-inner-loop", "echelon_form: after `%s` the pivot row may have lost all its variables; the `is_identity()` branch must leave the loop over the remaining rows (continue the outer loop / break), found %s: the next iteration reads `vars[0]` of an empty row (index out of bounds)" % (show(F, a)[:60], {"again": "a `continue` of the inner loop", None: "no exit"}.get(kind, kind) if i_ is not None else "no is_identity() test after the addition"), F.loc(i_ if i_ is not None else a))
         # (3) the addition is guarded by equality of the leading variables
         conds = [p for p in ps if p.get("k") == "If" and any(x is a for x in walk(p["th"]))]
         rr.instances += 1
@@ -110,7 +113,7 @@ def r19_1(ctx, rr):
     rr.check(oks, "echelon_form:swap-on-order", "echelon_form: rows are swapped only under a strict comparison of their leading variables", b.span)
 
 
-@rule("R19.2", props=["C19"], floor=6, title="Modulo2Equation::add is the sorted symmetric difference: pointers advance by (l <= r), (l >= r), the output by their XOR, both tails are copied, constants are XORed")
+@rule("R19.2", props=["C19", "C07", "C08"], scope_all=True, floor=6, title="Modulo2Equation::add is the sorted symmetric difference: pointers advance by (l <= r), (l >= r), the output by their XOR, both tails are copied, constants are XORed")
 def r19_2(ctx, rr):
     F = ctx.F()
     b = F.one(r"^utils::mod2_sys::Modulo2Equation::<W>::add_ptr$")
@@ -226,7 +229,7 @@ def r19_2(ctx, rr):
     rr.check(okcap, "add:capacity-is-sum", "Modulo2Equation::add writes through a raw pointer into a vector that must have capacity self.vars.len() + other.vars.len()", a.span)
 
 
-@rule("R19.3", props=["C19", "C07"], floor=4, title="gaussian_elimination: the echelon error is propagated; back substitution runs in reverse over the non-identity rows and sets vars[0] to c ^ eval(vars)")
+@rule("R19.3", props=["C19", "C07", "C08"], scope_all=True, floor=4, title="gaussian_elimination: the echelon error is propagated; back substitution runs in reverse over the non-identity rows and sets vars[0] to c ^ eval(vars)")
 def r19_3(ctx, rr):
     F = ctx.F()
     b = F.one(r"^utils::mod2_sys::Modulo2System::<W>::gaussian_elimination$")
@@ -262,7 +265,7 @@ def r19_3(ctx, rr):
     rr.check(oka, "gaussian_elimination:pivot-value", "back substitution must set the leading variable of each row to `c ^ eval_vars(vars, solution)`", b.span)
 
 
-@rule("R19.4", props=["C19", "C07"], floor=5, title="lazy_gaussian_elimination: empty rows are classified (unsolvable -> error, identity -> skipped, else dense); the dense error is propagated; pivots are back-substituted from their own rows")
+@rule("R19.4", props=["C19", "C07", "C08"], scope_all=True, floor=5, title="lazy_gaussian_elimination: empty rows are classified (unsolvable -> error, identity -> skipped, else dense); the dense error is propagated; pivots are back-substituted from their own rows")
 def r19_4(ctx, rr):
     F = ctx.F()
     b = F.one(r"^utils::mod2_sys::Modulo2System::<W>::lazy_gaussian_elimination$")
@@ -323,7 +326,7 @@ def r19_4(ctx, rr):
     rr.check(oka, "lazy:pivot-value", "lazy_gaussian_elimination: each pivot variable is set to `c ^ eval_vars(vars, solution)` of its own row after the dense solve", b.span)
 
 
-@rule("R19.5", props=["C19"], floor=6, title="lazy phase bookkeeping: only variables of weight 0 are skipped; activating a variable and solving a pivot lower each touched equation's priority by one and enqueue it exactly at priority 1")
+@rule("R19.5", props=["C19", "C07", "C08"], scope_all=True, floor=6, title="lazy phase bookkeeping: only variables of weight 0 are skipped; activating a variable and solving a pivot lower each touched equation's priority by one and enqueue it exactly at priority 1")
 def r19_5(ctx, rr):
     """The weights count the unsolved equations a variable occurs in and the priorities the idle variables of an
     equation. The tests on them are exact: `weight[var] == 0` (skip), `priority[eq] == 1` (ready),
